@@ -163,7 +163,10 @@ def d2(ctx, prog, ci):
         for test, pol in g:
             vals = test.values if isinstance(test, ast.BoolOp) and isinstance(test.op, ast.And) and pol else [test]
             conds += [(v, pol) for v in vals]
-        txt = norm(a.value).replace(' ', '')
+        av = a.value
+        if isinstance(av, ast.Name) and av.id not in (lo, hi, nb) and single(av.id) is not None:
+            av = single(av.id)            # a named loop invariant (`last_bin = nbins - 1`)
+        txt = norm(av).replace(' ', '')
         akey = f'{k.key}::{norm(a)[:100]}'
         if txt.startswith('int(') and normv and normv in txt:
             seen['scale'] = True
@@ -187,7 +190,7 @@ def d2(ctx, prog, ci):
                       f'guarded by {lo} <= {xvar}', k.where(a))
             ctx.check(upper_strict, 'C13-D2', akey + ' upper bound', f'the scaling formula is not guarded by a strict {xvar} < {hi}: x == {hi} (or above) yields bin index nbins, out of range',
                       f'guarded by strict {xvar} < {hi}', k.where(a))
-        elif astutil.affine(a.value) == {nb: 1, '': -1}:
+        elif astutil.affine(av) == {nb: 1, '': -1}:
             seen['edge'] = True
             eq = any(pol and isinstance(c, ast.Compare) and len(c.ops) == 1 and isinstance(c.ops[0], ast.Eq) and
                      {norm(c.left), norm(c.comparators[0])} == {xvar or norm(c.left), hi} for c, pol in conds)
